@@ -429,6 +429,50 @@ fn exec_inner<V: VirtualFileSystem>(v: &V, hs: &mut Handles, op: &Op) -> Outcome
                 Err(e) => Outcome::Err(err_kind(&e)),
             }
         },
+        Op::ChmodBDeferred { p, calls, cwd } => {
+            let mut b = match v.chmod_b(p) {
+                Ok(b) => b,
+                Err(e) => return Outcome::Err(err_kind(&e)),
+            };
+            for c in calls {
+                b = match c {
+                    ChmodCall::All(m) => b.all(*m),
+                    ChmodCall::Dirs(m) => b.dirs(*m),
+                    ChmodCall::Files(m) => b.files(*m),
+                    ChmodCall::Sym(s) => b.sym(s),
+                    ChmodCall::Follow => b.follow(),
+                    ChmodCall::Recurse => b.recurse(),
+                    ChmodCall::NoRecurse => b.no_recurse(),
+                    ChmodCall::Readonly => b.readonly(),
+                    ChmodCall::Secure => b.secure(),
+                };
+            }
+            let moved = v.set_cwd(cwd).is_ok();
+            match b.exec() {
+                Ok(_) => Outcome::Ok(Val::Bool(moved)),
+                Err(e) => Outcome::Err(err_kind(&e)),
+            }
+        },
+        Op::ChownBDeferred { p, calls, cwd } => {
+            let mut b = match v.chown_b(p) {
+                Ok(b) => b,
+                Err(e) => return Outcome::Err(err_kind(&e)),
+            };
+            for c in calls {
+                b = match c {
+                    ChownCall::Uid(u) => b.uid(*u),
+                    ChownCall::Gid(g) => b.gid(*g),
+                    ChownCall::Owner(u, g) => b.owner(*u, *g),
+                    ChownCall::Follow => b.follow(),
+                    ChownCall::Recurse(y) => b.recurse(*y),
+                };
+            }
+            let moved = v.set_cwd(cwd).is_ok();
+            match b.exec() {
+                Ok(_) => Outcome::Ok(Val::Bool(moved)),
+                Err(e) => Outcome::Err(err_kind(&e)),
+            }
+        },
         Op::Cwd => r(v.cwd(), |x| Val::Path(ps(&x))),
         Op::Root => Outcome::Ok(Val::Path(ps(&v.root()))),
         Op::SetCwd { p } => r(v.set_cwd(p), |x| Val::Path(ps(&x))),
